@@ -199,15 +199,8 @@ theorem parseErr_ne_cb (e : Err) (h : ParseErr e) : e ≠ .parsingCallbackFailed
   rcases h with h | h | h | h <;> (rw [h]; intro hh; cases hh)
 
 theorem parseErr_not_gate (g : Global) (node : Node) (e : Err) (h : gate g node = some e) : ¬ ParseErr e := by
-  unfold gate at h
   intro hp
-  split at h
-  · cases h; rcases hp with h | h | h | h <;> cases h
-  · split at h
-    · cases h; rcases hp with h | h | h | h <;> cases h
-    · split at h
-      · cases h; rcases hp with h | h | h | h <;> cases h
-      · cases h
+  rcases gate_codes g node e h with h | h | h | h | h <;> (rw [h] at hp; rcases hp with h | h | h | h <;> cases h)
 
 /-- one file: a parse failure leaves the location record at that file's absolute path and the
     number of the offending line -/
